@@ -18,30 +18,35 @@
 EXTENDS Integers, Sequences, FiniteSets, TLC
 
 Answers(s) == s.kind # "silence" /\ s.at <= s.budget + 1
-ExpectOK(s) == s.kind \in {"ok", "vsaok", "relayok"} /\ Answers(s)
+\* privok / defonly (client with its own dictionary, cfg "owndict"): the only application of the success CEA is one
+\* that only the client's dictionary defines / one that dict.Default defines and the client's dictionary does not
+ExpectOK(s) == s.kind \in {"ok", "vsaok", "relayok", "privok"} /\ Answers(s)
 \* CERs seen when the peer answers: the at-th; with `during`, the answer arrives while the next one is being written
-NCer(s) == IF s.during THEN s.at + 1 ELSE s.at
+\* wfail: the transport refuses the at-th transmission (the read side stays healthy, the peer keeps the
+\* connection): the peer has seen at-1 CERs, the dial returns the transport's error and has closed the transport
+NCer(s) == IF s.kind = "wfail" THEN s.at - 1 ELSE IF s.during THEN s.at + 1 ELSE s.at
 ErrClasses(s) ==
   CASE ~Answers(s) /\ s.kind # "eof" -> {"timeout"}
     [] s.kind \in {"fail", "failok"}   -> {"failed"}     \* failok: a failing CEA with a success CEA pipelined behind it
     [] s.kind \in {"noresult", "nooh"} -> {"malformed"}
-    [] s.kind \in {"noapps", "unsupapps", "vsaunsup"} -> {"malformed", "noapp", "failed"}
+    [] s.kind \in {"noapps", "unsupapps", "vsaunsup", "defonly"} -> {"malformed", "noapp", "failed"}
     [] s.kind = "eof"                 -> {"transport", "timeout"}
+    [] s.kind = "wfail"               -> {"transport"}
     [] OTHER -> {}
 
 Reasons(s, o, want) ==
   \* cfg: the client was told to advertise one more application, which its own dictionary lacks.  It may
   \* refuse to dial (the code does for acct / auth applications); if it dials, the CER carries that
   \* application too (it is part of `want`) and everything else holds as usual.
-  IF s.cfg # "" /\ ~o.dial_ok /\ o.ncer = 0 THEN <<>>
+  IF s.cfg \in {"acct", "auth", "vsa"} /\ ~o.dial_ok /\ o.ncer = 0 THEN <<>>
   ELSE
-     (IF o.ncer > s.budget + 1 \/ o.ncer < 1 THEN <<"too-many-cer">> ELSE <<>>)
+     (IF o.ncer > s.budget + 1 \/ (o.ncer < 1 /\ s.kind # "wfail") THEN <<"too-many-cer">> ELSE <<>>)
   \o (IF Answers(s) /\ s.kind # "eof" /\ o.ncer # NCer(s) THEN <<"cer-count">> ELSE <<>>)
   \o (IF ~Answers(s) /\ s.kind # "eof" /\ o.ncer # s.budget + 1 THEN <<"cer-count">> ELSE <<>>)
   \o (IF s.kind = "eof" /\ o.ncer < (IF s.at <= s.budget + 1 THEN s.at ELSE s.budget + 1) THEN <<"cer-count">> ELSE <<>>)
   \o (IF ~o.identical THEN <<"cer-differs">> ELSE <<>>)
   \o (IF o.ncer > 1 /\ o.mingap < s.interval THEN <<"spacing">> ELSE <<>>)
-  \o (IF o.cer # want THEN <<"cer-content">> ELSE <<>>)
+  \o (IF o.cer # want /\ ~(s.kind = "wfail" /\ s.at = 1) THEN <<"cer-content">> ELSE <<>>)
   \o (IF s.shared /\ ~o.other_open THEN <<"other-connection-closed">> ELSE <<>>)
   \o (IF ExpectOK(s)
       THEN (IF ~o.dial_ok THEN <<"dial-failed">> ELSE
